@@ -68,10 +68,19 @@ class NormalizingExperimenter(experimenter.Experimenter):
     for parameters in sampled_params:
       trial = vz.Trial(parameters=parameters)
       exptr.evaluate([trial])
+      if trial.infeasible:
+        # Infeasible samples carry no (or NaN) objective values; they must not
+        # enter the normalization statistics.
+        continue
       measurement = trial.final_measurement
       for name, metric in (measurement.metrics if measurement else {}).items():
         metrics[name].append(metric.value)
 
+    if not metrics:
+      raise ValueError(
+          'No feasible normalization sample: cannot estimate the normalization'
+          f' constants of {exptr}.'
+      )
     self._norm_means: Dict[str, float] = {}
     self._norm_stds: Dict[str, float] = {}
     for name, grid_values in metrics.items():
